@@ -14,6 +14,11 @@ VARIABLES hist, phase
 gvars == <<vars, hist, phase>>
 
 NoBlocks == {<<>>}
+\* the versions of the version gate: patch / minor / major components with different digit counts, a pre-release
+GateVersions == {[v |-> <<5, 1, 6>>, pre |-> ""], [v |-> <<5, 1, 9>>, pre |-> ""], [v |-> <<5, 1, 10>>, pre |-> ""], [v |-> <<5, 1, 20>>, pre |-> ""],
+                 [v |-> <<5, 1, 100>>, pre |-> ""], [v |-> <<5, 9, 0>>, pre |-> ""], [v |-> <<5, 10, 0>>, pre |-> ""], [v |-> <<9, 0, 0>>, pre |-> ""],
+                 [v |-> <<10, 0, 0>>, pre |-> ""], [v |-> <<5, 1, 6>>, pre |-> "-rc1"]}
+
 NoEnv == {}
 HSeq == <<"m50", "other", "m10", "m300", "m303">>
 SSeq == <<"idle", "fresh", "signed", "elected", "relayed">>
@@ -32,19 +37,22 @@ Focus == {"UpsertRelayerFee", "AddMessageEstimates", "AddMessageEstimates/all", 
 \* balance requests and transfer batches exist from height 300 on (the stage scripts put a transfer into the pool)
 FocusHC(k) == IF k \in {"AddEvidenceBalances/all", "EstimateBatchGas", "EstimateBatchGas/all", "ConfirmBatch", "BatchSendToRemoteClaim/all"} THEN "m303" ELSE "other"
 
+OKKinds == {"AddEvidenceDeployOK/all", "AddEvidenceCallOK/all", "AddEvidenceValsetOK/all", "AddEvidenceTx/all"}
 \* Metadata.Creator / Signers are handled by the ante chain in the same way for every kind
 IsMeta(p) == p \in {"Metadata.Creator", "Metadata.Signers", "Metadata.Signers[0]"}
 Selected(i, c, s, hc) ==
   \/ Sel = "full"
   \/ /\ Sel = "diag"
      /\ \/ (hc = HSeq[((i + CIdx(c)) % 5) + 1] /\ s = SSeq[((i + 2 * CIdx(c)) % 5) + 1])
-        \/ (Cat[i][1] \in Focus /\ hc = FocusHC(Cat[i][1]) /\ ~IsMeta(Cat[i][2]))
+        \/ (Cat[i][1] \in Focus /\ hc = FocusHC(Cat[i][1]) /\ ~IsMeta(Cat[i][2]) /\ s \in MainStages)
+        \* proofs of the matching transaction only count once the relayer has published its hash
+        \/ (Cat[i][1] \in OKKinds /\ s = "reportedpad" /\ hc = "other" /\ ~IsMeta(Cat[i][2]))
 
 
 GInit == Init /\ hist = <<>> /\ phase = "start"
 
 GPrepare == /\ phase = "start"
-            /\ \/ \E s \in MainStages, hc \in HClasses :
+            /\ \/ \E s \in MainStages \cup {"reportedpad"}, hc \in HClasses :
                     /\ txlog' = PrepLog(s, hc) /\ height' = HeightOf(hc) - 1 /\ queued' = StageOfLog(PrepLog(s, hc))
                     /\ hist' = <<[act |-> "Prepare", args |-> [stage |-> s, hclass |-> hc, world |-> "std"]]>>
                     /\ phase' = "prepared"
@@ -67,11 +75,15 @@ GHostile == /\ phase = "prepared"
                  /\ Block(<< <<Cat[i][1], Cat[i][2], c>> >>)
                  /\ hist' = Append(hist, [act |-> "Hostile", args |-> [kind |-> Cat[i][1], param |-> Cat[i][2], class |-> c]])
             /\ phase' = "hostile"
-\* the version gate is exercised once per stage at the height class "other"
-GGate == /\ phase = "prepared" /\ CurHC = "other" /\ Gate
-         /\ hist' = Append(hist, [act |-> "Gate", args |-> [n |-> 0]]) /\ phase' = "gate"
+\* the version gate: every pair (running software, completed upgrade) of GateVersions at stage idle, one older and one newer pair
+\* at the other stages
+GatePair(s, a, g) == s = "idle" \/ (a.v = <<5, 1, 6>> /\ a.pre = "" /\ g.v \in {<<5, 1, 10>>, <<5, 1, 6>>} /\ g.pre = "")
+GGate == /\ phase = "prepared" /\ CurHC = "other" /\ CurStage \in MainStages
+         /\ \E a, g \in GateVersions : /\ GatePair(CurStage, a, g) /\ Gate(a, g)
+                                       /\ hist' = Append(hist, [act |-> "Gate", args |-> [app |-> a, gov |-> g]])
+         /\ phase' = "gate"
 GRun == /\ phase \in {"hostile", "gate"}
-        /\ IF gate THEN Halt ELSE Block(DutyBlock)
+        /\ IF Closed THEN Halt ELSE Block(DutyBlock)
         /\ hist' = Append(hist, [act |-> "Run", args |-> [mode |-> "duty", span |-> "next"]]) /\ phase' = "done"
 \* nobody attests: the blocks carry what the pigeons still do (sign, estimate, batch work)
 GLapse == /\ phase = "lapse" /\ Block(TplSeq(<<"sign", "estimate", "batchest", "confirm">>))
